@@ -55,3 +55,13 @@ def _scenario(t, idx, seed=0, asserts=None):
     # the statement's degrees are those of the scenario: if the highest degree sat on a neg column, the statement
     # is still admissible (lower degree), nothing else changes
     return sc
+
+
+def low_degree(sc):
+    """A running-product auxiliary column that reads a period-two main column while no tail row is free (one exemption): the
+    main column is then a polynomial of degree n/2, the auxiliary constraint has a lower degree than declared, and the prover's
+    debug-build degree validation (a developer aid) fires.  Such traces are judged in the build without debug assertions."""
+    sh = sc["shape"]
+    if sh["exempt"] != 1:
+        return False
+    return any(d == 2 and (j % sh["width"]) in sh.get("neg", []) for j, d in enumerate(sh.get("aux_degs", [])))
